@@ -47,6 +47,10 @@ def Registry.register (r : Registry) (v : Int) (title : Bytes) (p : RegPack) : O
     treatAs := if p.treatAs < Lv.max then assocSet r.treatAs v p.treatAs else r.treatAs
     errorDevice := if p.toErr then assocSet r.errorDevice v true else r.errorDevice }
 
+/-- `SetLevelColors(lvl, fg, bg)`: the pair is stored as given (-1 = no color), for any level -/
+def Registry.setColors (r : Registry) (l fg bg : Int) : Registry :=
+  { r with colors := assocSet r.colors l [fg, bg] }
+
 /-- `Level.String()` -/
 def Registry.name (r : Registry) (l : Int) : Bytes :=
   match r.levelToString.lookup l with
